@@ -494,14 +494,14 @@ pub fn wrap_block(k: usize, inner: Vec<Item>) -> Vec<Item> {
     let first = |v: &Vec<Item>| v.first().cloned().into_iter().collect::<Vec<_>>();
     match k {
         0 => inner,
-        1 => vec![Item::Foreach { var: "i".into(), list: E::List(vec![int(1), int(2)]), body: inner, braces: true }],
+        1 => vec![Item::Foreach { var: "i".into(), list: E::List(vec![int(1)]), body: inner, braces: true }],
         2 => {
             let one = first(&inner);
             let mut v = vec![Item::Foreach { var: "i".into(), list: E::List(vec![int(1)]), body: one, braces: false }];
             v.extend(inner.into_iter().skip(1));
             v
         }
-        3 => vec![Item::Let { binds: vec![("f".into(), int(1)), ("g".into(), E::List(vec![]))], body: inner, braces: true }],
+        3 => vec![Item::Let { binds: vec![("f".into(), int(1)), ("f".into(), int(2))], body: inner, braces: true }],
         4 => {
             let one = first(&inner);
             let mut v = vec![Item::Let { binds: vec![("f".into(), int(1))], body: one, braces: false }];
